@@ -1041,6 +1041,8 @@ def _structural(name):
 
         def back(y):
             if isinstance(y, _nd):
+                if y.dtype != object:
+                    return SArr.from_typed(y)          # every argument was a plain Python / NumPy value
                 return SArr(y, odt) if odt.kind != 'O' else _mk(y, object)
             if isinstance(y, (list, tuple)):
                 return type(y)(back(z) for z in y)
